@@ -8,6 +8,7 @@
 -/
 import QExPy.Lemmas.UnitParse
 import QExPy.Lemmas.ParseSpec
+import QExPy.Lemmas.ParseSession
 
 namespace QExPy
 open U
@@ -112,6 +113,50 @@ theorem C12_tokens_sound_complete (ts : List UTok) (t : Tree) :
   · exact refExpr_sound ts t
   · rintro ⟨a, rfl, rfl⟩
     exact refExpr_toks a
+
+/-! ### histories of calls (sessions): `Model/ParseSession.lean` -/
+
+/-- **C12 (histories: the reply depends on the string alone).** Whatever was parsed before,
+    through whichever entry point, accepted or rejected, and whatever the callers did with the
+    mappings they were handed (item assignment, `pop`, `clear`): the reply to the next call with
+    the string `s` is the reading of `s` by the reference grammar — the same exponents or the
+    same rejection as in a fresh session. -/
+theorem C12_session_parse_pure (hs : Handles) (rs : List PReq) (s : List Char) :
+    runS hs (rs ++ [.parse s]) = runS hs rs ++ [refParse s] := by
+  rw [runS_snoc]; simp [stepS, parse_eq_refParse]
+
+/-- **C12 (histories: a mapping that was handed out belongs to its caller).** A request changes
+    no mapping handed out earlier, except the one an `edit` names: later calls (with the same or
+    another string) and edits of other mappings leave it as it is. -/
+theorem C12_session_frame (hs : Handles) (r : PReq) (i : Nat) (hi : i < hs.length)
+    (hne : ∀ h e, r = .edit h e → h ≠ i) : slot (stepS hs r).1 i = slot hs i := by
+  cases r with
+  | parse s => simp [stepS, slot, List.getElem?_append_left hi]
+  | read h => simp [stepS, slot, List.getElem?_append_left hi]
+  | edit h e =>
+    have hh := hne h e rfl
+    simp only [stepS]
+    cases hu : slot hs h with
+    | none => simp [slot, List.getElem?_append_left hi]
+    | some u =>
+      have : i < (hs.set h (some (applyEdit u e))).length := by simpa using hi
+      simp [slot, List.getElem?_append_left this, List.getElem?_set_ne hh]
+
+/-- **C12 (histories: an edit is the caller's dict operation).** -/
+theorem C12_session_edit (hs : Handles) (h : Nat) (e : Edit) (u : Units)
+    (hu : slot hs h = some u) :
+    (stepS hs (.edit h e)).2 = some (applyEdit u e) ∧
+    slot (stepS hs (.edit h e)).1 h = some (applyEdit u e) := by
+  have hl := slot_lt hu
+  have : h < (hs.set h (some (applyEdit u e))).length := by simpa using hl
+  simp only [stepS, hu]
+  refine ⟨trivial, ?_⟩
+  simp [slot, List.getElem?_append_left this, List.getElem?_set_self hl]
+
+/-- non-vacuity and meaning: `u = parse("m/s"); u["s"] = -2; parse("m/s"); u` -/
+example : runS [] [.parse "m/s".toList, .edit 0 (.set ['s'] (-2)), .parse "m/s".toList, .read 0]
+    = [some [(['m'], 1), (['s'], -1)], some [(['m'], 1), (['s'], -2)],
+       some [(['m'], 1), (['s'], -1)], some [(['m'], 1), (['s'], -2)]] := by decide +kernel
 
 /- The bounded theorem below was the state before the induction was found; it is kept because
    it pins the model to concrete cases by kernel evaluation (it also breaks when the generated
